@@ -230,10 +230,16 @@ def Block.body : Block → List Cmd
   | .single c => [c]
   | .multi cs => cs
 
-/-- parser over the commands of a block (offsets: one per command from `off`) -/
+/-- bytes of the RESP encoding `*<n>\r\n$<len>\r\n<bytes>\r\n…` of a command -/
+def respLen (c : Cmd) : Nat :=
+  1 + (natToDec (c.args.length + 1)).length + 2 +
+    ((c.name :: c.args).map (fun a => 1 + (natToDec a.length).length + 2 + a.length + 2)).sum
+
+/-- the commands of a block as the parser meets them: end offsets are byte
+    offsets of the encoded stream from `off` -/
 def items (off : Nat) : List Cmd → List Item
   | [] => []
-  | c :: cs => ⟨c, off + 1⟩ :: items (off + 1) cs
+  | c :: cs => ⟨c, off + respLen c⟩ :: items (off + respLen c) cs
 
 def parseBlock (cfg : PCfg) (st : PState) (b : Block) : List Emit × PState × Option PErr :=
   parse cfg st (items st.prevOff b.cmds) []
